@@ -122,7 +122,15 @@ func runConc(t *testing.T, out *vh.Out, n *node, s scenario, rep int) {
 		// park the event loop
 		in, gate := make(chan struct{}), make(chan struct{})
 		go n.ps.VerifEval(func() { close(in); <-gate })
-		<-in
+		select {
+		case <-in:
+		case <-time.After(5 * time.Second):
+			// the event loop does not take requests any more (all calls have returned: it is stuck on its own)
+			out.Emit(M{"e": "loopdead", "scn": scn, "at": "park"})
+			close(gate)
+			abandoned++
+			return
+		}
 		var calls []*call
 		var issued atomic.Int32
 		var wg sync.WaitGroup
@@ -214,7 +222,16 @@ func runConc(t *testing.T, out *vh.Out, n *node, s scenario, rep int) {
 		out.Emit(M{"e": "noquiesce", "scn": scn, "at": "final"})
 		return
 	}
-	st := n.snap()
+	stCh := make(chan M, 1)
+	go func() { stCh <- n.snap() }()
+	var st M
+	select {
+	case st = <-stCh:
+	case <-time.After(5 * time.Second):
+		out.Emit(M{"e": "loopdead", "scn": scn, "at": "final"})
+		abandoned++
+		return
+	}
 	bufs := []any{}
 	n.objMu.Lock()
 	subs := append([]*subT(nil), n.ss...)
@@ -231,6 +248,10 @@ func runConc(t *testing.T, out *vh.Out, n *node, s scenario, rep int) {
 			done := make(chan string, 1)
 			go func() {
 				msg, err := sub.Next(ctx)
+				if msg == nil && err == nil {
+					done <- "\x00nil-without-error"
+					return
+				}
 				if err != nil {
 					if ctx.Err() != nil && err == ctx.Err() {
 						done <- "\x00blocked"
